@@ -101,7 +101,7 @@ func Run(c *core.Ctx) {
 	// ---- MITM
 	rec3 := &core.Recorder{}
 	w.UseRecorder(rec3)
-	menvs, err := h1.SimulateEnv(c, "h1_c02_menv", c.Pick(3, 4), false, true, true, c.Pick(800, 6000))
+	menvs, err := h1.SimulateEnv(c, "h1_c02_menv", c.Pick(3, 4), false, true, true, c.Pick(350, 6000))
 	if err != nil {
 		c.Inconclusive("%v", err)
 		return
